@@ -60,11 +60,11 @@ SK_BOUNDS = {}
 def fresh(prefix, sort=None):
     _fresh_counter[0] += 1
     name = '%s!%d' % (prefix, _fresh_counter[0])
-    if sort is None or sort == 'int':
+    if sort is None or (isinstance(sort, str) and sort == 'int'):
         return z3.Int(name)
-    if sort == 'real':
+    if isinstance(sort, str) and sort == 'real':
         return z3.Real(name)
-    if sort == 'bool':
+    if isinstance(sort, str) and sort == 'bool':
         return z3.Bool(name)
     return z3.Const(name, sort)
 
